@@ -15,6 +15,7 @@ i, j = Int("i"), Int("j")
 
 hgt = Function("hgt", R, I)        # spec function HEIGHT over the view (see height())
 from pyvc.heap import IA
+LOGPOS = Function("LOGPOS", I, IA, I, I, I)   # LOGPOS(base, xs, |xs|, j): hook-log length after attaching xs[:j] (2 or 4 events per child)
 ANC = Function("ANC", R, IA)       # spec function: ANC(x)[j] = the ancestor of x at depth j (0 <= j < depth(x))
 
 
@@ -687,14 +688,64 @@ def build(fam):
             Clause("set/ancestors-of-self-unchanged", ForAll([a], S.A(a, n) == P.A(a, n))),
         ]
 
+    PRE_A, POST_A = HOOK_ID["_pre_attach"], HOOK_ID["_post_attach"]
+
+    def logpos(c):
+        """LOGPOS_c(j): hook-log length after the attach loop handled xs[:j] - a fresh function symbol per call instance
+        with one defining equation (`d_LOGPOS`): 2 events per child, 4 if it is taken away from another parent"""
+        return Function("LOGPOS|%s|%s|%s" % (c.S0.loglen, c.self, c.children), I, I)
+
+    def had_parent(c, x):
+        """x has, when its turn comes, still a parent (the former children of self were detached by the delete phase)"""
+        return And(c.S0.par(x) != NONE, c.S0.par(x) != c.self)
+
+    def attach_base(c):
+        # log0 ++ [pre_detach_children, (pre_detach, post_detach) * m, post_detach_children, pre_attach_children]
+        return c.S0.loglen + 2 * c.S0.cl(c.self) + 3
+
+    def d_LOGPOS(c, j_):
+        xs, LPc = xs_of(c), logpos(c)
+        return [LPc(0) == attach_base(c),
+                Implies(in_range(j_, xs.n), LPc(j_ + 1) == LPc(j_) + If(had_parent(c, xs.a[j_]), 4, 2))]
+
+    def attach_log(c, S, xs, k, props=("C16",)):
+        """C16: during the attach phase the log grows, child by child in the order of xs, by [pre_detach(x, q), post_detach(x, q)]
+        iff x still had a parent q, followed by [pre_attach(x, n), post_attach(x, n)]"""
+        S0, n, pos, L0 = c.S0, c.self, logpos(c), attach_base(c)
+        jj = Int("jl")
+        ev = lambda at, hook, recv, arg: And(S.logk[at] == hook, S.logr[at] == recv, S.loga[at] == arg)
+        x = xs.a[jj]
+        return [
+            Clause("log/attach-phase-length", S.loglen == pos(k), props),
+            Clause("log/attach-phase-positions-monotone", And(pos(k) >= L0, ForAll([jj], Implies(in_range(jj, k), And(
+                L0 <= pos(jj), pos(jj) + If(had_parent(c, x), 4, 2) <= pos(k))))), props),
+            Clause("log/attach-phase-events-per-child-in-order", ForAll([jj], Implies(in_range(jj, k), And(
+                Implies(had_parent(c, x), And(ev(pos(jj), PRE_D, x, S0.par(x)), ev(pos(jj) + 1, POST_D, x, S0.par(x)),
+                                              ev(pos(jj) + 2, PRE_A, x, n), ev(pos(jj) + 3, POST_A, x, n))),
+                Implies(Not(had_parent(c, x)), And(ev(pos(jj), PRE_A, x, n), ev(pos(jj) + 1, POST_A, x, n)))))), props),
+        ]
+
+    def delete_phase_log(c, S, props=("C16",)):
+        """the part of the log written before the attach loop: the deleter's events and pre_attach_children"""
+        S0, n = c.S0, c.self
+        m = S0.cl(n)
+        L0 = S0.loglen
+        at = L0 + 2 * m + 1
+        return [cl for cl in del_log(S, S0, n, m, extra=0) if cl.name != "log/len"] + [
+            Clause("log/post_detach_children-after-the-former-children", And(S.logk[at] == HOOK_ID["_post_detach_children"], S.logr[at] == n), props),
+            Clause("log/pre_attach_children-next", And(S.logk[at + 1] == HOOK_ID["_pre_attach_children"], S.logr[at + 1] == n), props)]
+
     def cs_inv(L):
         c = L.fn
         n, P, S = c.self, L.S_pre, L.S
         xs = L.v["children"].t
-        cls = (attached_prefix(S, P, n, xs, L.i) + WFc(S) +
+        cls = (attached_prefix(S, P, n, xs, L.i) + WFc(S) + delete_phase_log(c, S) + attach_log(c, S, xs, L.i) +
                [Clause("set/no-loop-so-far", ForAll([j], Implies(in_range(j, L.i), And(xs.a[j] != n, Not(P.A(xs.a[j], n)))))),
                 Clause("alloc-mono", alloc_mono(S, P))])
         return [(cl.name, cl.f) for cl in cls]
+
+    def cs_hints(L):
+        return d_LOGPOS(L.fn, L.i)
 
     def set_state_rel_entry(S1, S0, n, xs, props=("C02",)):
         """C02, complete post-state of `n.children = xs` relative to the entry state"""
@@ -716,7 +767,13 @@ def build(fam):
         ]
 
     def cs_post(c, S1, r):
-        return set_state_rel_entry(S1, c.S0, c.self, xs_of(c)) + WFc(S1) + [Clause("alloc-mono", alloc_mono(S1, c.S0))]
+        xs = xs_of(c)
+        last = logpos(c)(xs.n)
+        return (set_state_rel_entry(S1, c.S0, c.self, xs) + WFc(S1) + [Clause("alloc-mono", alloc_mono(S1, c.S0))] +
+                # C16, the complete log: delete phase, pre_attach_children, per-child events, post_attach_children
+                delete_phase_log(c, S1) + [cl for cl in attach_log(c, S1, xs, xs.n) if cl.name != "log/attach-phase-length"] +
+                [Clause("log/post_attach_children-last", And(S1.loglen == last + 1, S1.logk[last] == HOOK_ID["_post_attach_children"],
+                                                             S1.logr[last] == c.self), {"C16"})])
 
     def cs_refused(c, S1, r):
         return unchanged(S1, c.S0, {"C03"}) + [Clause("no-hook-called", log_equal(S1, c.S0), {"C16"})]
@@ -781,7 +838,7 @@ def build(fam):
         cs_try_exit("LoopError", "reraise:set:parent", 0, cls="LoopError", when=cs_loop_cond),
         # the restoring assignment itself raised (KF4)
         Outcome("restore-raises", "raise", cs_restore_failed, exc="UserExc", site="in-handler:*", user=True),
-    ], loops={0: LoopSpec(cs_inv, mods="all")},
+    ], loops={0: LoopSpec(cs_inv, mods="all", hints=cs_hints)},
         hookobs={"_pre_attach_children": cs_hookobs_pre, "_post_attach_children": cs_hookobs_post},
         props={"C01", "C02"}))
     return fam
